@@ -41,24 +41,53 @@ theorem dedupSorted_strict (l : List Time) (h : l.Pairwise (· ≤ ·)) : (dedup
         have hab' : a ≤ b := h2.1 b (List.mem_cons_self)
         exact lt_of_lt_of_le (lt_of_le_of_ne hab' hab) hbx
 
-theorem le_trans_bool (a b c : Time) : decide (a ≤ b) = true → decide (b ≤ c) = true → decide (a ≤ c) = true := by
-  simp only [decide_eq_true_eq]; exact le_trans
+theorem insertT_perm (x : Time) (l : List Time) : (insertT x l).Perm (x :: l) := by
+  induction l with
+  | nil => exact List.Perm.refl _
+  | cons y ys ih =>
+      unfold insertT
+      split_ifs
+      · exact List.Perm.refl _
+      · exact (List.Perm.cons y ih).trans (List.Perm.swap x y ys)
 
-theorem le_total_bool (a b : Time) : (decide (a ≤ b) || decide (b ≤ a)) = true := by
-  simp only [Bool.or_eq_true, decide_eq_true_eq]; exact le_total a b
+theorem insertT_sorted (x : Time) (l : List Time) (h : l.Pairwise (· ≤ ·)) : (insertT x l).Pairwise (· ≤ ·) := by
+  induction l with
+  | nil => simp [insertT]
+  | cons y ys ih =>
+      have hp := List.pairwise_cons.mp h
+      unfold insertT
+      split_ifs with hxy
+      · refine List.pairwise_cons.mpr ⟨?_, h⟩
+        intro z hz
+        rcases List.mem_cons.mp hz with rfl | hz'
+        · exact hxy
+        · exact le_trans hxy (hp.1 z hz')
+      · refine List.pairwise_cons.mpr ⟨?_, ih hp.2⟩
+        intro z hz
+        have := (insertT_perm x ys).mem_iff.mp hz
+        rcases List.mem_cons.mp this with rfl | hz'
+        · exact le_of_lt (not_le.mp hxy)
+        · exact hp.1 z hz'
+
+theorem sortT_sorted (l : List Time) : (sortT l).Pairwise (· ≤ ·) := by
+  induction l with
+  | nil => simp [sortT]
+  | cons x xs ih => exact insertT_sorted x _ ih
+
+theorem sortT_perm (l : List Time) : (sortT l).Perm l := by
+  induction l with
+  | nil => exact List.Perm.refl _
+  | cons x xs ih => exact (insertT_perm x _).trans (List.Perm.cons x ih)
 
 /-- the grid is strictly increasing … -/
-theorem mkGrid_strict (ts : List Time) : (mkGrid ts).Pairwise (· < ·) := by
-  unfold mkGrid
-  apply dedupSorted_strict
-  have := List.pairwise_mergeSort (le := fun a b : Time => decide (a ≤ b)) le_trans_bool le_total_bool ts
-  exact this.imp (by intro a b h; simpa using h)
+theorem mkGrid_strict (ts : List Time) : (mkGrid ts).Pairwise (· < ·) :=
+  dedupSorted_strict _ (sortT_sorted ts)
 
 /-- … and has exactly the members of the input (duplicates and order of the input do not matter) -/
 theorem mkGrid_mem (ts : List Time) (t : Time) : t ∈ mkGrid ts ↔ t ∈ ts := by
   unfold mkGrid
   rw [dedupSorted_mem]
-  exact (List.mergeSort_perm ts _).mem_iff
+  exact (sortT_perm ts).mem_iff
 
 /-! ### the stable sort of the events -/
 variable {ρ : Type}
